@@ -1182,6 +1182,15 @@ class Convention(abc.ABC, Generic[GridKind, Index]):
 
             data_array = utils.name_to_data_array(self.dataset, data_array)
 
+            # The polygons are the cells of the default grid.
+            # Values on some other grid, such as nodes or edges, belong to no cell,
+            # even when that grid happens to have the same size.
+            grid_kind = self.get_grid_kind(data_array)
+            if grid_kind != self.default_grid_kind:
+                raise ValueError(
+                    f"Data array is defined on the {grid_kind} grid, "
+                    f"only {self.default_grid_kind} data can be plotted on the polygons")
+
             data_array = self.ravel(data_array)
             if len(data_array.dims) > 1:
                 raise ValueError(
@@ -1259,6 +1268,13 @@ class Convention(abc.ABC, Generic[GridKind, Index]):
                     f"u dimensions: {tuple(u.dims)}\n"
                     f"v dimensions: {tuple(v.dims)}"
                 )
+
+            # The arrows sit at the face centres
+            grid_kind = self.get_grid_kind(u)
+            if grid_kind != self.default_grid_kind:
+                raise ValueError(
+                    f"Vector data arrays are defined on the {grid_kind} grid, "
+                    f"only {self.default_grid_kind} data can be plotted at the face centres")
 
             u, v = self.ravel(u), self.ravel(v)
 
